@@ -199,7 +199,7 @@ PROPS = {
                  "policies; 0-6 root edges (random functions, constants = terminal roots, repeated roots, variants sharing sub-graphs) "
                  "written with mdd_writer to an in-memory stream and read back with mdd_reader into (a) the writing forest "
                  "(identical edges required for non-real kinds), (b) a second forest of the same kind with other storage/memory/"
-                 "deletion policies that already holds some of the functions, (c) a forest created from the file; every root evaluated "
+                 "deletion policies that already holds some of the functions, (c) a forest created from the file, (d) a domain created from the file (domain::write / domain::create(input): same variables and bounds required, domain::verify must accept it) and a forest created from the file over that domain; every root evaluated "
                  "at every point (reals: tolerance derived from the writer's print format), root count and order checked, repeats stay "
                  "identical, receiving forests audited (M1 canonical, M2 exact reference counts, M3).  non-trivial = some non-constant "
                  "root; distinct = hash(forest, shape, root tables)"),
@@ -207,7 +207,7 @@ PROPS = {
             "quick": [P("main", "asan", 1500)],
             "thorough": [P("main", "asan", 40000)],
         },
-        "require_counters": ["files_written", "reads_same-forest", "reads_other-forest", "reads_forest-from-file", "empty_root_lists", "refcounts_checked"],
+        "require_counters": ["files_written", "reads_same-forest", "reads_other-forest", "reads_forest-from-file", "domains_read_back", "reads_domain-and-forest-from-file", "empty_root_lists", "refcounts_checked"],
         "assumptions": ASSUME_COMMON,
     },
     "C02": {
